@@ -41,7 +41,14 @@ func VH23a_dialer() {
 	verif.Assume(verif.And(maxrx >= 0, maxrx <= 1<<20))
 	verif.Assert(sock.SetOption(mangos.OptionMaxRecvSize, maxrx) == nil, lab+"/set-maxrx")
 	var st *vws.State
+	var offers [][]string // what every connection attempt of this dialer offered
+	refuse := false
 	vws.DialOutcome = func(url string, offered []string) (*websocket.Conn, error) {
+		offers = append(offers, append([]string{}, offered...))
+		if refuse {
+			refuse = false
+			return nil, vws.ErrClosed
+		}
 		c, s := vws.NewConn("d")
 		st = s
 		return c, nil
@@ -121,6 +128,24 @@ func VH23a_dialer() {
 			verif.Assert(st.Closed, "C16/ws/connection-not-dropped-for-over-limit-frame")
 			verif.Reach("over-limit")
 		}
+	}
+	// the dialer is used again: the peer goes away, one attempt is refused (or not), the next one connects - every
+	// attempt makes the same offer as the first
+	first := st
+	refuse = verif.Choice("redial-refused-once", 2) == 1
+	first.PeerClose()
+	verif.Quiesce()
+	for i := 0; i < 4 && (st == first || refuse); i++ {
+		verif.FireTimer()
+		verif.Quiesce()
+	}
+	verif.Assert(st != first, "C14/ws/no-reconnect-after-the-peer-went-away")
+	for _, o := range offers {
+		verif.Assert(len(o) == 1 && o[0] == want, lab+"/subprotocol-offered-on-a-later-attempt")
+	}
+	if st != first {
+		verif.Assert(st.LimitSet && st.ReadLimit == int64(maxrx), "C16/ws-dialer/read-limit-not-applied-on-reconnect")
+		verif.Reach("reconnected")
 	}
 	sock.Close()
 	verif.Quiesce()
